@@ -134,6 +134,25 @@ theorem SubOK.withdrawLocked {fixed : Bool} {now : Nat} {sub : Sub} (h : SubOK f
   · show 0 ≤ sub.wagered + d
     omega
 
+/-- `returnToSubaccount` on one record (patched wager) -/
+theorem SubOK.wagerReturn {fixed : Bool} {now : Nat} {sub : Sub} (h : SubOK fixed now sub) {amt : Int}
+    (h0 : 0 ≤ amt) (h1 : amt ≤ sub.wagered) :
+    SubOK fixed now { sub with sum := { sub.sum with withdrawn := sub.sum.withdrawn - amt },
+                               wagered := sub.wagered - amt, toOwner := sub.toOwner - amt } := by
+  have hs := h.sum
+  have hsplit := h.wdSplit
+  have hts := h.toOwnerSplit
+  have hrel := h.relNonneg
+  refine ⟨⟨hs.dep, hs.spent, ?_, hs.lost⟩, h.locks, ?_, ?_, h.relNonneg, ?_, h.profNonneg, h.lockPartial, h.lockFull⟩
+  · show 0 ≤ sub.sum.withdrawn - amt
+    omega
+  · show sub.sum.withdrawn - amt = sub.released + (sub.wagered - amt)
+    omega
+  · show sub.toOwner - amt = sub.released + (sub.wagered - amt) + sub.profitOut
+    omega
+  · show 0 ≤ sub.wagered - amt
+    omega
+
 /-- `AfterHouseWin` on one record -/
 theorem SubOK.win {fixed : Bool} {now : Nat} {sub : Sub} (h : SubOK fixed now sub) {sum' : Summary} {p : Int}
     (hn : SumNonneg sum') (hw : sum'.withdrawn = sub.sum.withdrawn) (hp : 0 ≤ p) :
@@ -342,18 +361,106 @@ theorem wagerBet_inv {s0 s1 : State} (h0 : Inv s0) (h1 : Inv s1) (owner a : Nat)
       · rename_i sub hs
         exact h1.update (clean' := s1.clean) hs (send_bank_nonneg hsend h1.bankNonneg) ((h1.subOK a sub hs).setStaked _)
 
+/-- the record at `a` exists and its wager ghost is at least `d` -/
+def WageredAtLeast (s : State) (a : Nat) (d : Int) : Prop := ∃ sb, s.subs a = some sb ∧ d ≤ sb.wagered
+
+theorem withdrawLockedAt_wagered {s s1 : State} (hinv : Inv s) {a owner : Nat} {d : Int}
+    (h : withdrawLockedAt s a owner d = (s1, .ok)) : WageredAtLeast s1 a d := by
+  unfold withdrawLockedAt at h
+  split at h
+  · simp at h
+  · rename_i sub hs
+    dsimp only at h
+    split at h
+    · simp at h
+    · split at h
+      · simp at h
+      · split at h
+        · simp at h
+        · split at h
+          · simp at h
+          · simp only [Prod.mk.injEq, and_true] at h
+            subst h
+            refine ⟨_, upd_same _ _ _, ?_⟩
+            have := (hinv.subOK a sub hs).wagNonneg
+            show d ≤ sub.wagered + d
+            omega
+
+theorem wagerBet_wagered {s0 s1 s2 : State} {owner a : Nat} {x : WagerExt} {d : Int}
+    (h : wagerBet s0 s1 owner a x = (s2, .ok)) (hw : WageredAtLeast s1 a d) : WageredAtLeast s2 a d := by
+  obtain ⟨sb, hs, hd⟩ := hw
+  unfold wagerBet at h
+  split at h
+  · simp at h
+  · split at h
+    · simp at h
+    · split at h
+      · simp at h
+      · rename_i sub hs'
+        rw [hs] at hs'
+        simp only [Option.some.injEq] at hs'
+        subst hs'
+        simp only [Prod.mk.injEq, and_true] at h
+        subst h
+        exact ⟨_, upd_same _ _ _, hd⟩
+
+theorem wagerReturn_inv {s0 s2 : State} (h0 : Inv s0) (h2 : Inv s2) (owner a : Nat) (main sub : Int)
+    (hw : WageredAtLeast s2 a sub) : Inv (wagerReturn s0 s2 owner a main sub).1 := by
+  obtain ⟨sb, hs, hd⟩ := hw
+  unfold wagerReturn
+  split
+  · exact h2
+  · dsimp only
+    split
+    · exact h2
+    · rename_i hpos
+      split
+      · exact h0
+      · rename_i sb' hs'
+        rw [hs] at hs'
+        simp only [Option.some.injEq] at hs'
+        subst hs'
+        split
+        · exact h0
+        · split
+          · exact h0
+          · rename_i bank' hsend
+            exact h2.update (clean' := s2.clean) hs (send_bank_nonneg hsend h2.bankNonneg)
+              ((h2.subOK a sb hs).wagerReturn (by omega) (by omega))
+
+theorem wagerTail_inv {s : State} (hinv : Inv s) (owner a : Nat) (main sub : Int) (x : WagerExt) :
+    Inv (wagerTail s owner a main sub x).1 := by
+  unfold wagerTail
+  cases h1 : withdrawLockedAt s a owner sub with
+  | mk s1 r1 =>
+    cases r1 with
+    | ok =>
+      dsimp only
+      have hi1 : Inv s1 := by
+        have := withdrawLockedAt_inv hinv a owner sub
+        rw [h1] at this; exact this
+      have hw1 := withdrawLockedAt_wagered hinv h1
+      cases h2 : wagerBet s s1 owner a x with
+      | mk s2 r2 =>
+        cases r2 with
+        | ok =>
+          dsimp only
+          have hi2 : Inv s2 := by
+            have := wagerBet_inv hinv hi1 owner a x
+            rw [h2] at this; exact this
+          exact wagerReturn_inv hinv hi2 owner a main sub (wagerBet_wagered h2 hw1)
+        | err e => exact hinv
+        | panic => exact hinv
+    | err e => exact hinv
+    | panic => exact hinv
+
 theorem wager_inv {s : State} (hinv : Inv s) (owner : Nat) (main sub : Int) (x : WagerExt) :
     Inv (wager s owner main sub x).1 := by
   unfold wager
   repeat' split
   all_goals first
     | exact hinv
-    | (rename_i s1 heq
-       have h1 : Inv s1 := by
-         have h := congrArg Prod.fst heq
-         simp only at h
-         rw [← h]; exact withdrawLockedAt_inv hinv _ _ _
-       exact wagerBet_inv hinv h1 _ _ _)
+    | exact wagerTail_inv hinv _ _ _ _ _
 
 theorem houseDeposit_inv {s : State} (hinv : Inv s) (owner : Nat) (amount : Int) (x : HouseDepExt) :
     Inv (houseDeposit s owner amount x).1 := by
